@@ -223,8 +223,10 @@ def r5_pop_push(ck, F, R="C06-R5"):
         if not okf:
             okf = any(e.k == "call" and e.x.get("site") == p1 for e in y.walk()) and y.strip().k == "field" and y.strip().x["idx"] == 0
             oko = any(e.k == "call" and e.x["path"].endswith("BinaryHeap::<T, A>::peek") for e in x.walk()) and x.strip().k == "field" and x.strip().x["idx"] == 0
-        ck.ob(R, "gather-relation", c["op"] == "==" and okf and oko, f"entries are gathered while `first key {c['op']} top-of-heap key` (whole-key equality)", b, c["site"])
+        ck.ob(R, "gather-relation", c["op"] in ("==", "!=") and okf and oko, f"gathering is decided by `first key {c['op']} top-of-heap key` (whole-key equality or its negation)", b, c["site"])
         ed = bool_edges(b, value_site=c["site"])
+        if ed is not None and c["op"] == "!=":
+            ed = (ed[0], ed[2], ed[1])      # the edge taken when the keys are equal is the false edge of `!=`
         ok = ed is not None and b.dominates(ed[1], p2.bb) and not b.dominates(ed[2], p2.bb) and b.in_loop(p2.bb)
         ck.ob(R, "gather-arms", ok, "equal => pop it into tmp_entries and continue; different => stop gathering", b, c["site"])
     pt = [s for s, c, t in calls(b, "Vec::<T, A>::push") if is_self_field(b.arg_exprs(s)[0], "tmp_entries")]
